@@ -106,6 +106,7 @@ func VisitStored(prop string, seg segment.Segment, n uint64) ([]model.FV, *Fail)
 
 // Observe reads a segment exhaustively through the public API.
 func Observe(prop string, seg segment.Segment, opts ObsOpts) (*model.Obs, *Fail) {
+	Heartbeat()
 	o := &model.Obs{
 		Dicts: map[string][]model.TermObs{},
 		Stats: map[string]model.StatObs{},
